@@ -24,17 +24,16 @@ from sparrowpy.classes.RadiosityKang import RadiosityKang
 R = sp.DirectionalRadiosityFast
 
 NOT_CARRIED = [
-    "C15_bisim is proved only for set_wall_brdf, set_air_attenuation and the two round trips (C15_bisim_partial, "
-    "C15_bisim_trace_partial); for bake_geometry, init_source_energy, calculate_energy_exchange and "
-    "collect_energy_receiver_mono(direct_sound=False) the commutation with the normalisation was NOT proved within "
-    "the budget -- there the claim rests on the twin test (remaining calls executed on original and restored twin, "
-    "all arrays bit-identical) and on the model correspondence",
-    "C15_roundtrip_partial assumes the kind invariant wf: it is shown for the five pipeline stages "
-    "(Instances/ObjectExamples.stages_wf) and compared after every call by the correspondence, but its preservation "
-    "by every ostep is not proved",
-    "C15_fields_complete_partial is about the DECLARED read sets (Spec/ObjectSpec.reads); that ostep depends on no "
-    "other attribute is proved only in the form 'the covered calls commute with erasing _source / "
-    "_source_visibility' (part of C15_bisim_partial)",
+    "C15_lossless_continuation / C15_bisim / C15_bisim_trace (every call except "
+    "collect_energy_receiver_mono(direct_sound=True), every continuation, every reachable stage) and "
+    "C15_wf_reachable / C15_roundtrip_reachable (kind invariant preserved by every call, round trip without the "
+    "kind hypothesis) are statements about the L2 MODEL: similarity compares presence, shape, provenance and kind "
+    "(up to object-ndarray -> list) of the 23 serialised attributes; ownership (from_dict keeps the caller's "
+    "direction lists, finding C16) and _source / _source_visibility are deliberately not compared",
+    "C15_fields_complete_partial is about the DECLARED read sets (Spec/ObjectSpec.reads); that each call depends on "
+    "no attribute outside ITS OWN declared set is not proved per call -- what is proved is the global form: every "
+    "call except the direct-sound collect commutes with erasing _source / _source_visibility and with the "
+    "normalisation (C15_bisim)",
     "bit-identity of array CONTENTS through tolist()/np.array and through pf.io is an IO fact: established by the "
     "harness on every step (content hashes), not by a theorem",
     "reachable states that check() refuses exist (C15_roundtrip_refuted_partial_materials, "
